@@ -169,6 +169,37 @@ def geo(env):
     env.eq('identical rotations give zero', ls.geodesic_loss(Y, Y, reduction='sum'), 0)
 
 
+@obligation('C19.geodesic_loss.reductions', functions=[f'{LOSS}:geodesic_loss', f'{LOSS}:GeodesicLoss.forward'], max_paths=16, timeout=300, no_validate=True,
+            note='Log by contract (an abstract rotation vector per relative rotation; its value is C02 / C19.geodesic_loss)')
+def geo_reductions(env):
+    """the reductions are taken over the BROADCAST result: one reference rotation against a batch, a batch against one, a column against a
+    row - 'none' has the broadcast shape, 'mean' is the mean of that result, 'sum' its sum; function and module form"""
+    ls = env.load(LOSS); pp = env.load('pypose'); T = env.T
+    if env.sym:
+        from pvc import storch as st
+        lt = env.load(LT)
+        memo = {}
+        class LogStub:
+            @staticmethod
+            def apply(x):
+                rows = x.reshape(-1, 4); out = []
+                for i in range(rows.shape[0]):
+                    key = tuple(repr(e) for e in st._T(rows[i])._a.flat)
+                    if key not in memo: memo[key] = env.fresh_matrix(f'log{len(memo)}_', 1, 3)[0]
+                    out.append(memo[key])
+                return T.stack(out, 0).reshape(tuple(x.shape[:-1]) + (3,))
+        env.stub(lt, 'SO3_Log', LogStub)
+    qs = [env.unitquat(f'q{i}', regimes=('generic',)) for i in range(4)]
+    one = lie(pp, 'SO3', qs[0]); two = lie(pp, 'SE3', T.cat([T.stack([env.vec('t1', 3), env.vec('t2', 3)], 0), T.stack(qs[1:3], 0)], -1))
+    for a, b, tag, shape in ((one, two, 'one against a batch', (2,)), (two, one, 'a batch against one', (2,)),
+                             (lie(pp, 'SO3', T.stack(qs[0:2], 0).reshape(2, 1, 4)), lie(pp, 'SO3', T.stack(qs[2:4], 0).reshape(1, 2, 4)), 'a column against a row', (2, 2))):
+        none = ls.geodesic_loss(a, b, reduction='none')
+        env.holds(f"{tag}: 'none' has the broadcast shape", tuple(none.shape) == shape)
+        env.eq(f"{tag}: 'mean' is the mean over the broadcast result", ls.geodesic_loss(a, b, reduction='mean'), none.mean())
+        env.eq(f"{tag}: 'sum' is the sum over the broadcast result", ls.geodesic_loss(a, b, reduction='sum'), none.sum())
+        env.eq(f"{tag}: the module form (default reduction) is the mean", ls.GeodesicLoss()(a, b), none.mean())
+
+
 @obligation('C19.error_statistics', functions=[f'{APE}:compute_error', f'{APE}:StampedSE3.__init__'], max_paths=64, timeout=300)
 def stats(env):
     ap = env.load(APE); pp = env.load('pypose'); T = env.T
